@@ -20,6 +20,7 @@ FMT_RE = re.compile(r'%(?P<flags>[-#0 +]*)(?P<width>\d+)?(?:\.(?P<prec>\d+))?(?P
 KINDS = ['None', 'NA', 'MARKER', 'REMOVE', 'bool', 'int', 'float', 'str', 'Uri', 'Bin', 'XStr', 'Ref', 'Ref+dis',
          'Coordinate', 'Quantity', 'Quantity-nounit', 'date', 'time', 'datetime', 'list', 'dict', 'Grid']
 V3_ONLY = {'NA', 'list', 'dict', 'Grid', 'XStr'}
+NF_ALL = frozenset({'inf', '-inf', 'nan'})
 
 # python class facts for isinstance ladders (kind -> classes it is an instance of)
 ISA = {
@@ -100,16 +101,16 @@ class Interp(object):
                 return ('const', kind == 'Ref+dis')
         if kind in ('Quantity', 'Quantity-nounit'):
             if name == 'value':
-                return ('num', 'number', True)
+                return ('num', 'number', frozenset())
             if name == 'unit':
                 if kind == 'Quantity-nounit':
                     return ('const', None)
                 return ('str', Tmpl(S.domain('unit')))
         if kind == 'Coordinate' and name in ('latitude', 'longitude'):
-            return ('num', 'float', True)
+            return ('num', 'float', frozenset())
         if kind == 'XStr':
             if name == 'encoding':
-                return ('str', Tmpl(S.domain('xstr_type_impl')))
+                return ('str', Tmpl(S.domain('xstr_type')))
             if name == 'data':
                 return ('str', Tmpl(S.domain('any_text'), raw=('XStr.data',)))
         if kind == 'Grid':
@@ -123,16 +124,21 @@ class Interp(object):
 
     def lex_number(self, av, how):
         """text of a number under str()/%s/%f/%d"""
-        _, nk, finite = av
+        _, nk, nf = av
+        if nf is True:
+            nf = frozenset()
+        elif nf is False:
+            nf = NF_ALL
+        extra = [Tmpl(L.rlit(x)) for x in sorted(nf)] if nk != 'int' else []
         if how in ('str', 'repr', 's', 'r'):
-            parts = []
+            parts = list(extra)
             if nk in ('int', 'number'):
                 parts.append(Tmpl(S.lexform('str_int')))
             if nk in ('float', 'number'):
-                parts.append(Tmpl(S.lexform('str_float_finite' if finite else 'str_float')))
+                parts.append(Tmpl(S.lexform('str_float_finite')))
             return Tmpl.union(parts)
         if how == 'f':
-            return Tmpl(S.lexform('pct_f_finite' if finite else 'pct_f'), lossy=('%f',))
+            return Tmpl.union([Tmpl(S.lexform('pct_f_finite'), lossy=('%f',))] + extra)
         if how == 'd':
             return Tmpl(S.lexform('pct_d'), lossy=('%d',) if nk != 'int' else ())
         raise Unsupported('number formatted with %%%s' % how)
@@ -163,7 +169,7 @@ class Interp(object):
             if kind == 'Bin':
                 return Tmpl(S.domain('mime'))
             if kind in ('int', 'float'):
-                return self.lex_number(('num', kind, False), how)
+                return self.lex_number(('num', kind, NF_ALL if kind == 'float' else frozenset()), how)
             if kind in ('XStr', 'Ref', 'Ref+dis', 'Coordinate', 'Quantity') and how in ('s', 'str'):
                 # str(obj): __str__ or __repr__ of the package class
                 return self.method_str(kind, node)
@@ -385,6 +391,16 @@ class Interp(object):
                     v = self.expr(test.args[0], env)
                 except Unsupported:
                     return None
+                if v[0] == 'num':
+                    classes = test.args[1].elts if isinstance(test.args[1], ast.Tuple) else [test.args[1]]
+                    names = {norm(c) for c in classes}
+                    if v[1] == 'number':
+                        if {'float', 'int'} <= names or 'numbers.Number' in names:
+                            return True
+                        if names & {'float', 'int', 'six.integer_types', 'bool'}:
+                            return None
+                        return False
+                    return bool(ISA.get(v[1], set()) & names)
                 if v[0] == 'obj' and v[1] != 'any':
                     classes = test.args[1].elts if isinstance(test.args[1], ast.Tuple) else [test.args[1]]
                     names = set()
@@ -585,9 +601,12 @@ class Interp(object):
             p, classes, notes = pl
             a = args[0]
             if a[0] == 'obj':
-                if a[1] not in ('str', 'Uri', 'any'):
+                if a[1] in ('str', 'Uri', 'any'):
+                    arg_t = Tmpl(S.domain('any_text'))
+                elif a[1] == 'Bin':
+                    arg_t = Tmpl(S.domain('mime'))
+                else:
                     raise Unsupported('%s applied to a %s' % (fname, a[1]))
-                arg_t = Tmpl(S.domain('any_text'))
             else:
                 arg_t = a[1]
             # identity on a restricted language?
@@ -643,72 +662,112 @@ class Interp(object):
                     except Unsupported:
                         env[p] = ('const', None)
         returns = []
-        self.block(body_wo_doc(fn), env, returns)
+        left = self.block(body_wo_doc(fn), env, returns)
+        if left:
+            returns.append(('const', None))
         return returns
 
     def block(self, stmts, env, returns):
-        """Execute; returns True if every path returned/raised."""
-        for i, st in enumerate(stmts):
-            if isinstance(st, ast.Return):
-                returns.append(self.expr(st.value, env) if st.value is not None else ('const', None))
-                return True
-            if isinstance(st, ast.Raise):
-                returns.append(('raise', norm(st.exc.func) if isinstance(st.exc, ast.Call) else norm(st.exc)))
-                return True
-            if isinstance(st, ast.If):
-                t = self.truth(st.test, env)
-                if t is None and self.is_version_gate(st):
-                    t = self.version_gate_truth(st)
-                if t is True:
-                    if self.block(st.body, env, returns):
-                        return True
-                    continue
-                if t is False:
-                    if self.block(st.orelse, env, returns):
-                        return True
-                    continue
-                e1, e2 = dict(env), dict(env)
-                d1 = self.block(st.body, e1, returns)
-                d2 = self.block(st.orelse, e2, returns)
-                rest = stmts[i + 1:]
-                if not d1:
-                    self.block(rest, e1, returns)
-                if not d2:
-                    self.block(rest, e2, returns)
-                return True
-            if isinstance(st, ast.Assign) and len(st.targets) == 1:
-                tg = st.targets[0]
-                v = self.expr(st.value, env)
-                if isinstance(tg, ast.Name):
-                    env[tg.id] = v
-                    continue
-                if isinstance(tg, ast.Tuple) and v[0] == 'metaitem' and len(tg.elts) == 2:
-                    env[tg.elts[0].id] = ('str', Tmpl(S.domain('tag_name')))
-                    env[tg.elts[1].id] = ('obj', 'any')
-                    continue
-                if isinstance(tg, ast.Tuple) and v[0] == 'tuple' and len(tg.elts) == len(v[1]):
-                    for t_, x in zip(tg.elts, v[1]):
-                        env[t_.id] = x
-                    continue
-                if isinstance(tg, ast.Subscript) and isinstance(tg.value, ast.Name) and tg.value.id in env:
-                    base = env[tg.value.id]
-                    key = self.expr(tg.slice, env)
-                    env[tg.value.id] = ('pydictset', base, key, v)
-                    continue
-                raise Unsupported('assignment target %s' % norm(tg))
-            if isinstance(st, ast.AugAssign) and isinstance(st.op, ast.Add) and isinstance(st.target, ast.Name):
-                cur = env.get(st.target.id)
-                v = self.expr(st.value, env)
-                if cur is None:
-                    raise Unsupported('augmented assignment to unknown %s' % st.target.id)
-                env[st.target.id] = ('str', self.to_str(cur, 's', st).cat(self.to_str(v, 's', st)))
-                continue
-            if isinstance(st, ast.Expr) and isinstance(st.value, ast.Constant):
-                continue
-            if isinstance(st, ast.For):
-                raise Unsupported('loop in %s' % norm(st).split('\n')[0])
-            raise Unsupported('statement %s' % norm(st).split('\n')[0])
-        return False
+        """Execute a statement list; returned values are appended to `returns`.
+        Returns the list of environments of the paths that fall off the end."""
+        envs = [env]
+        for st in stmts:
+            nxt = []
+            for e in envs:
+                nxt.extend(self.stmt(st, e, returns))
+            envs = nxt
+            if not envs:
+                break
+        return envs
+
+    def stmt(self, st, env, returns):
+        if isinstance(st, ast.Return):
+            returns.append(self.expr(st.value, env) if st.value is not None else ('const', None))
+            return []
+        if isinstance(st, ast.Raise):
+            returns.append(('raise', norm(st.exc.func) if isinstance(st.exc, ast.Call) else norm(st.exc)))
+            return []
+        if isinstance(st, ast.If):
+            ref = self.nonfinite_test(st.test, env)
+            if ref is not None:
+                var, which = ref
+                cur = env[var]
+                hit = cur[2] & which
+                out = []
+                if hit:
+                    e1 = dict(env)
+                    e1[var] = ('num', 'float', hit)
+                    out.extend(self.block(st.body, e1, returns))
+                e2 = dict(env)
+                e2[var] = ('num', cur[1], cur[2] - which)
+                out.extend(self.block(st.orelse, e2, returns))
+                return out
+            t = self.truth(st.test, env)
+            if t is None and self.is_version_gate(st):
+                t = self.version_gate_truth(st)
+            if t is True:
+                return self.block(st.body, env, returns)
+            if t is False:
+                return self.block(st.orelse, env, returns)
+            return self.block(st.body, dict(env), returns) + self.block(st.orelse, dict(env), returns)
+        if isinstance(st, ast.Assign) and len(st.targets) == 1:
+            tg = st.targets[0]
+            v = self.expr(st.value, env)
+            if isinstance(tg, ast.Name):
+                env[tg.id] = v
+                return [env]
+            if isinstance(tg, ast.Tuple) and v[0] == 'metaitem' and len(tg.elts) == 2:
+                env[tg.elts[0].id] = ('str', Tmpl(S.domain('tag_name')))
+                env[tg.elts[1].id] = ('obj', 'any')
+                return [env]
+            if isinstance(tg, ast.Tuple) and v[0] == 'tuple' and len(tg.elts) == len(v[1]):
+                for t_, x in zip(tg.elts, v[1]):
+                    env[t_.id] = x
+                return [env]
+            if isinstance(tg, ast.Subscript) and isinstance(tg.value, ast.Name) and tg.value.id in env:
+                base = env[tg.value.id]
+                key = self.expr(tg.slice, env)
+                env[tg.value.id] = ('pydictset', base, key, v)
+                return [env]
+            raise Unsupported('assignment target %s' % norm(tg))
+        if isinstance(st, ast.AugAssign) and isinstance(st.op, ast.Add) and isinstance(st.target, ast.Name):
+            cur = env.get(st.target.id)
+            v = self.expr(st.value, env)
+            if cur is None:
+                raise Unsupported('augmented assignment to unknown %s' % st.target.id)
+            env[st.target.id] = ('str', self.to_str(cur, 's', st).cat(self.to_str(v, 's', st)))
+            return [env]
+        if isinstance(st, ast.Expr) and isinstance(st.value, ast.Constant):
+            return [env]
+        if isinstance(st, ast.Pass):
+            return [env]
+        if isinstance(st, ast.For):
+            raise Unsupported('loop in %s' % norm(st).split('\n')[0])
+        raise Unsupported('statement %s' % norm(st).split('\n')[0])
+
+    def nonfinite_test(self, test, env):
+        """x != x | x == float('inf') | x == -float('inf') | math.isnan(x) | math.isinf(x) on a number variable
+        -> (variable, set of non-finite values for which the test is true)"""
+        def numvar(e):
+            return isinstance(e, ast.Name) and e.id in env and env[e.id][0] == 'num'
+        t = norm(test)
+        if isinstance(test, ast.Compare) and len(test.ops) == 1 and numvar(test.left):
+            v = test.left.id
+            r = norm(test.comparators[0])
+            if isinstance(test.ops[0], ast.NotEq) and r == v:
+                return (v, frozenset({'nan'}))
+            if isinstance(test.ops[0], ast.Eq):
+                if r in ("float('inf')", "float('INF')", 'math.inf', "float('Inf')"):
+                    return (v, frozenset({'inf'}))
+                if r in ("-float('inf')", "-float('INF')", '-math.inf', "float('-inf')", "float('-INF')"):
+                    return (v, frozenset({'-inf'}))
+        if isinstance(test, ast.Call) and len(test.args) == 1 and numvar(test.args[0]):
+            f = norm(test.func)
+            if f == 'math.isnan':
+                return (test.args[0].id, frozenset({'nan'}))
+            if f == 'math.isinf':
+                return (test.args[0].id, frozenset({'inf', '-inf'}))
+        return None
 
     def is_version_gate(self, st):
         t = st.test
@@ -787,7 +846,12 @@ def scalar_template(model, modname, mode, kind, version):
     if idx is None:
         return interp, None, None, lad
     test, body, node = lad[idx]
-    env = {p: ('obj', kind), 'version': ('ver',)}
+    val = ('obj', kind)
+    if kind == 'float':
+        val = ('num', 'float', NF_ALL)
+    elif kind == 'int':
+        val = ('num', 'int', frozenset())
+    env = {p: val, 'version': ('ver',)}
     returns = []
     interp.block(body, env, returns)
     return interp, idx, returns, lad
